@@ -330,6 +330,12 @@ HAND = [
                             'property isred := .c = Col.Red; }; function pick(c: Col) -> optional str using (<str>c); '
                             'function vs(variadic xs: int64) -> int64 using (sum(array_unpack(xs))); '
                             'function nd(b: optional str = {}, named only a: int64 = 5) -> int64 using (a); }'),
+    # scalars extending a USER enum (added after seed C03/4): the subtype must be described by its base name,
+    # not by the inherited label list
+    ('enum-inheritance', 'module default { scalar type Color extending enum<Red, Green>; scalar type Shade extending Color; '
+                         'scalar type Tone extending Shade { annotation title := "t"; }; '
+                         'type Paint { property c -> Color; property s -> Shade { default := <Shade>"Red"; }; multi property ts -> Tone; }; '
+                         'function shade_of(c: Color) -> optional Shade using (<Shade><str>c); }'),
     ('annotations', 'module default { abstract annotation note; abstract inheritable annotation tagl; '
                     'type AN { annotation note := "n"; annotation tagl := "t"; annotation title := "T"; annotation description := "D"; '
                     'property p -> str { annotation note := "pn"; annotation tagl := "pt"; }; index on (.p) { annotation note := "idx"; }; }; '
